@@ -478,9 +478,9 @@ impl RateLimiter {
             elapsed.as_nanos() % (self.interval as u128 * 1_000_000),
         );
 
-        // We add `new` to `capacity`, subtract one for returning `true` from here,
-        // then make sure it does not exceed a maximum of `MAX_BURST`, then store it.
-        self.capacity = Ord::min(MAX_BURST as u128, (self.capacity as u128) + new - 1) as u8;
+        // We add `new` to `capacity`, make sure it does not exceed a maximum of `MAX_BURST`,
+        // then subtract one for returning `true` from here, then store it.
+        self.capacity = (Ord::min(MAX_BURST as u128, (self.capacity as u128) + new) - 1) as u8;
         // Store `prev` for the next iteration after subtracting the `remainder`.
         // Just use `unwrap` here because it shouldn't be possible for this to underflow.
         self.prev = now
